@@ -63,8 +63,8 @@ def run(tier, seed):
     cw_lens = [1, 2] if tier == "quick" else [1, 2, 3, 4]
     obs = hist_job("C12", lens, NAMES[:1], unwind=16, timeout=1500, harness_timeout=600).run()
     obs += hist_job("C12", cw_lens, NAMES[1:], unwind=16, timeout=3000, harness_timeout=2400).run()
-    if tier == "thorough":
-        obs += hist_const_job("C12", [1, 3], NAMES[:1], unwind=9).run()
+    obs += hist_const_job("C12", [1, 3], NAMES[:1], unwind=9).run()       # const-generic copy: both tiers (seconds)
+    obs += hist_const_job("C12", cw_lens, NAMES[1:], unwind=9, timeout=3000).run()
     obs += const_width_ulps_corpus()
     try:
         import c12_rs
